@@ -453,7 +453,7 @@ theorem eval_shape (cfg : Cfg) : ∀ (fuel : Nat) (p : SProg) (π : Path) (x x' 
         exact ⟨{ l' with out := v' }, t, by simp [eval, hv'], ⟨hl.env_len, hl.res_eq, hl.cursors_eq, hl.kids_eq⟩, hrel⟩
     | param n shape init =>
       simp only [eval] at h
-      cases hp : scopeParam π n shape init l.res s with
+      cases hp : scopeParam π n (resolveDims shape) init l.res s with
       | mk res s2 =>
         rw [hp] at h
         cases res with
@@ -500,14 +500,14 @@ theorem eval_shape (cfg : Cfg) : ∀ (fuel : Nat) (p : SProg) (π : Path) (x x' 
         obtain ⟨rfl, rfl⟩ := h
         obtain ⟨v', hg', _⟩ := getVar_shape hrel π col n v hg
         exact ⟨push l' v'.total, t, by simp [eval, hg'], push_shape hl _ _, hrel⟩
-    | put col n e =>
+    | put col rel n e =>
       simp only [eval] at h
       cases he : evalE x l.env e with
       | error err => simp [he] at h
       | ok v =>
         simp only [he] at h
         obtain ⟨v', hv'⟩ := evalE_shape (x' := x') hl.env_len e v he
-        cases hp : putVar π col n (.tensor [] [v]) s with
+        cases hp : putVar (π ++ rel) col n (.tensor [] [v]) s with
         | mk res s2 =>
           rw [hp] at h
           cases res with
@@ -574,7 +574,7 @@ theorem eval_shape (cfg : Cfg) : ∀ (fuel : Nat) (p : SProg) (π : Path) (x x' 
           refine ⟨{ l' with res := r, cursors := cs, kids := l'.kids ++ [⟨nm, body⟩] }, t,
             by simp [eval, hname, hn, hl.res_eq, hr], ?_, hrel⟩
           exact ⟨hl.env_len, rfl, rfl, by simp [hl.kids_eq]⟩
-    | call slot a =>
+    | call slot a w =>
       simp only [eval] at h
       cases hk : l.kids[slot]? with
       | none => simp [hk] at h
@@ -585,7 +585,7 @@ theorem eval_shape (cfg : Cfg) : ∀ (fuel : Nat) (p : SProg) (π : Path) (x x' 
         | ok av =>
           simp only [he] at h
           obtain ⟨av', hav'⟩ := evalE_shape (x' := x') hl.env_len a av he
-          cases hb : eval cfg fuel k.body (π ++ [k.name]) av {} s with
+          cases hb : eval cfg fuel (bindArg w k.body) (π ++ [k.name]) av {} s with
           | mk res s2 =>
             rw [hb] at h
             cases res with
@@ -593,7 +593,7 @@ theorem eval_shape (cfg : Cfg) : ∀ (fuel : Nat) (p : SProg) (π : Path) (x x' 
             | ok lk =>
               simp only at h
               obtain ⟨lk', t2, e1, hlk, hr2⟩ :=
-                ih k.body (π ++ [k.name]) av av' {} {} lk s t s2 hrel (LocalShape.refl _) hb
+                ih (bindArg w k.body) (π ++ [k.name]) av av' {} {} lk s t s2 hrel (LocalShape.refl _) hb
               cases hf : finishCall cfg (π ++ [k.name]) lk s2 with
               | mk res2 s3 =>
                 rw [hf] at h
